@@ -288,6 +288,46 @@ def c08_jobs(tier, prop=8):
     for j in J: j.weight_gb = 3.0
     return J
 
+def c12_jobs(tier):
+    J = []
+    ns = NSET if tier == 'quick' else tuple(range(1, 256))
+    T = 900 if tier == 'quick' else 3000
+    def sj(name, n, **d):
+        d.update(dict(NSTATES=n, STATE_LIST=sl(n)))
+        full = d.get('FULL', 1)
+        j = Job(name, 'serial.cpp', d, unwind=6, unwindset={'nondet_fill.0': 64}, timeout=T, mem_gb=16, prop=(1200, 1299), seeds=20)
+        j.weight_gb = 0.3 + n * n * 4.0 / (255 * 255)
+        return j
+    for n in ns:
+        big = n > 16
+        variants = ((0, 0), (1, 0), (1, 1)) if (n <= 9 or tier != 'quick') else ((n % 2, (n // 2) % 2),)
+        for manual, head in variants:
+            J.append(sj('ser-n%d-m%d-h%d' % (n, manual, head), n, MANUAL=manual, HEAD=head, FULL=0 if big else 1))
+    J.append(sj('ser-n3-m1-h1-payload', 3, MANUAL=1, HEAD=1, PAYLOAD=1))
+    feats = ['FFSM2_ENABLE_PLANS', 'FFSM2_ENABLE_TRANSITION_HISTORY', 'FFSM2_ENABLE_LOG_INTERFACE']
+    combos = ((1, 1, 1), (1, 0, 0), (0, 1, 0)) if tier == 'quick' else tuple((a, b, c) for a in (0, 1) for b in (0, 1) for c in (0, 1))
+    for cmb in combos:
+        for pay in ((1,) if tier == 'quick' else (0, 1)):
+            d = dict((f, '') for f, on in zip(feats, cmb) if on)
+            J.append(sj('ser-n5-m1-feat%d%d%d-p%d' % (cmb + (pay,)), 5, MANUAL=1, HEAD=1, PAYLOAD=pay, **d))
+    return J
+
+def c17_jobs(tier):
+    J = []
+    T = 900 if tier == 'quick' else 3600
+    K = 2 if tier == 'quick' else 3
+    for manual in (0, 1):
+        j = product_job('self-prefill-m%d-k%d' % (manual, K), 'selfcomp.cpp', dict(ROLE=0, KSTEPS=K, MANUAL=manual), {}, {}, (1700, 1701), (1700, 1799),
+                        unwind=max(K + 3, 6), timeout=T, steps=K + 2, nch=12, ntr=28)
+        j.unwindset['nondet_fill.0'] = 200; j.weight_gb = 4.0; J.append(j)
+        j = Job('self-copy-m%d-k%d' % (manual, K), 'selfcomp.cpp', dict(ROLE=1, KSTEPS=K, MANUAL=manual), unwind=K + 4, unwindset={'nondet_fill.0': 200}, timeout=T, prop=(1700, 1799))
+        j.weight_gb = 4.0; J.append(j)
+    if tier != 'quick':
+        j = product_job('self-prefill-m0-k4-nopay', 'selfcomp.cpp', dict(ROLE=0, KSTEPS=4, MANUAL=0, PAYLOAD=0), {}, {}, (1700, 1701), (1700, 1799), unwind=8, timeout=T, steps=6, nch=12, ntr=28)
+        j.unwindset['nondet_fill.0'] = 200; j.weight_gb = 6.0; J.append(j)
+        j = Job('self-copy-m0-k4-nopay', 'selfcomp.cpp', dict(ROLE=1, KSTEPS=4, MANUAL=0, PAYLOAD=0), unwind=8, unwindset={'nondet_fill.0': 200}, timeout=T, prop=(1700, 1799)); j.weight_gb = 6.0; J.append(j)
+    return J
+
 def encoded_functions(job, work, inc):
     """FFSM2 functions reachable from the harness entry point, from the -O0 IR (at -O1 most are inlined into harness())."""
     wd = os.path.join(work, 'fenc-' + re.sub(r'\W', '_', job.name)); os.makedirs(wd, exist_ok=True)
@@ -353,6 +393,15 @@ PROPS = {
     'C09': dict(range=(900, 999), jobs=lambda t: c08_jobs(t, 9),
                 bounds=dict(quick='as C08, with arbitrary prefill of the machine storage', thorough='as C08'), outside='as C08',
                 assumptions=['as C08']),
+    'C12': dict(range=(1200, 1299), jobs=c12_jobs,
+                bounds=dict(quick='saver x loader with both in arbitrary reachable activity states (symbolic), automatic and manual activation, with/without root head; N in the boundary set {1,2,3,4,5,7,8,9,15,16,17,31,32,33,63,64,65,127,128,129,254,255} (byte-exact saver comparison and canonicity pair for N<=16, reduced scenario above); capacity static_asserts for every N encoded; feature combinations plans/history/log/payload at N=5',
+                            thorough='every N from 1 to 255 x 3 activation/head variants; all 16 feature combinations at N=5'),
+                outside='loading buffers not produced by save() of the same machine type (asserted precondition of load())',
+                assumptions=['load() is fed only buffers produced by save() of the same machine type']),
+    'C17': dict(range=(1700, 1799), jobs=c17_jobs,
+                bounds=dict(quick='3 states + root head, plans (capacity 2) + transition history + serialization + payload {u16}: (1) two constructions over independent arbitrary prefills driven by the same 2-step symbolic history: traces (callbacks, active state, previous transition, plan content, serialized form) identical; (2) copy taken before a symbolic step: observers equal at that moment, same traces afterwards, each side byte-unchanged while the other is driven; automatic and manual activation',
+                            thorough='3-step histories, plus 4-step payload-free variants'),
+                outside='longer histories; move construction is exercised only through the shared CoreT code path (copy); reads of indeterminate memory that cannot influence behaviour (padding copies)'),
     'C11': dict(range=(1100, 1199), jobs=c11_machine_jobs, bounds=dict(quick='N<=4, K<=3', thorough='N<=5, K<=4'), outside='as C01'),
 }
 
